@@ -53,7 +53,11 @@ def spec_only_compare(impl_lines, model_lines):
 
 
 def run_seq(ctx, profiles, n_quick, n_thorough, oracle=None, known_class=None,
-            nontrivial_rule=None, extra_assumptions=None, thm_note=""):
+            nontrivial_rule=None, extra_assumptions=None, thm_note="", corr_is_violation=None):
+    """corr_is_violation(diff) -> bool: for properties whose specification IS the proved model's
+    behaviour on some aspect of the state (e.g. C05: recency order and which values are kept),
+    a model/implementation difference in that aspect is a concrete violation, not just a
+    broken correspondence."""
     t0 = time.time()
     proof_broken, rep, digest, driver, harness = build_all(ctx)
     n = n_quick if ctx.tier == "quick" else n_thorough
@@ -121,6 +125,24 @@ def run_seq(ctx, profiles, n_quick, n_thorough, oracle=None, known_class=None,
         r2 = se.compare_case(i2[cid], m2[cid])
         report_case(small, r2 if r2["level"] else r, "implementation differs from from-scratch specification")
         reported += 1
+    if corr_is_violation is not None:
+        for c, r in corr_diffs:
+            if reported >= 3:
+                break
+            if corr_is_violation(r):
+                def fails_same(text):
+                    i2, m2 = se.run_both([text], harness, driver, shards=1)
+                    cid = text.split()[1]
+                    if cid not in i2 or cid not in m2:
+                        return False
+                    r2 = se.compare_case(i2[cid], m2[cid])
+                    return r2["level"] not in (None, "error") and corr_is_violation(r2)
+                small = se.shrink(c, fails_same, budget=120)
+                i2, m2 = se.run_both([small], harness, driver, shards=1)
+                r2 = se.compare_case(i2[small.split()[1]], m2[small.split()[1]])
+                report_case(small, r2 if r2["level"] else r,
+                            "implementation differs from the proved specification of this aspect (model behaviour proved in coq/Props/%s.v)" % ctx.prop)
+                reported += 1
     known_met = 0
     for c, o in oracle_diffs:
         if known_class is not None and known_class(c, o):
